@@ -16,7 +16,7 @@ import (
 
 // ---- C20: Params accessors ----
 
-var c20Values = []string{"", "0", "1", "-1", "+1", "007", "1.5", "1e3", "NaN", "Inf", "-Inf", "0x10", "1_0", "true", "T", "FALSE", "t ", "9223372036854775807",
+var c20Values = []string{"", "0", "1", "-1", "+1", "007", "1.5", "1e3", "NaN", "Inf", "-Inf", "0x10", "1_0", "true", "T", "FALSE", "tRue", "fALSE", "t ", "9223372036854775807",
 	"9223372036854775808", "-9223372036854775809", "18446744073709551615", "18446744073709551616", "é", "\xff"}
 
 var c20Keys = []string{"", "a", "b"}
